@@ -87,3 +87,95 @@ def run(ck, facts, cg, anchors, tier):
         else:
             ck.bad(R, "method|%s" % n, "builtin `%s` is computed with %s on the VM and with %s by the WASM host function" % (n, meths[0], h[0]), mf[0].where())
     ck.floor(R, "builtin_methods_compared", n_cmp, 8)
+    vm_methods = {}
+    for n in sorted(set(names)):
+        mf = [f for f in lang.fns if f.short.endswith("builtin_functins::%s::machine_function" % n)]
+        if mf:
+            meths = sorted({short_method(callee(t) or "") for g in facts.family(roles.LANG, mf[0].path) for _, t in g.calls() if short_method(callee(t) or "").startswith("f64::")})
+            if len(meths) == 1:
+                vm_methods[n] = meths[0]
+    rule_inline_builtins(ck, facts, set(names), vm_methods)
+
+
+# --------------------------------------------------------------------------------------------------
+# inline lowering of a builtin: a WASM-generator function (other than the import set-up and the resolver) that
+# recognises a builtin by name implements it itself.  Its numeric operator must be the WASM twin of the single f64
+# method of the VM's machine_function; min/max (NaN handling) and nearest/round (ties) are not twins.
+W_TWIN = {"F64Floor": "f64::floor", "F64Ceil": "f64::ceil", "F64Sqrt": "f64::sqrt", "F64Abs": "f64::abs", "F64Trunc": "f64::trunc", "F64Copysign": "f64::copysign"}
+W_NUMERIC_PREFIX = ("F64", "F32", "I64", "I32")
+W_NEUTRAL = ("Const", "Load", "Store", "ReinterpretI64", "ReinterpretF64")
+
+
+def _w_variants_in(facts, f, blocks):
+    """wasm_encoder Instruction variants constructed (directly or through a promoted constant) in the given blocks"""
+    out = set()
+
+    def scan_rv(rv, fn):
+        if rv[0] == "agg" and rv[1][0] == "adt" and rv[1][1].endswith("::Instruction") and "wasm_encoder" in rv[1][1]:
+            out.add(rv[1][3])
+        txt = [rv]
+        while txt:
+            x = txt.pop()
+            if isinstance(x, list):
+                if len(x) >= 4 and x[0] == "c" and x[1] == "p":
+                    g = facts.fn("%s::promoted[%d]" % (x[2], x[3]))
+                    if g is not None:
+                        for _, s in g.all_stmts():
+                            if s[KIND] == "a":
+                                scan_rv(s[5], g)
+                else:
+                    txt.extend(x)
+
+    for b in blocks:
+        for s in f.stmts(b):
+            if s[KIND] == "a":
+                scan_rv(s[5], f)
+        t = f.term(b)
+        if t[KIND] == "call":
+            for a in t[5]:
+                scan_rv(["use", a], f)
+    return out
+
+
+def rule_inline_builtins(ck, facts, names, vm_methods):
+    from ..cfg import dominators
+    RI = "C01.tables"
+    lang = facts.crate(roles.LANG)
+    n_fns = 0
+    for f in lang.fns:
+        if "::compiler::wasmgen" not in f.path or f.kind == "promoted":
+            continue
+        last = f.short.split("::")[-1]
+        if last in ("resolve_ext_function",) or (last.startswith("setup_") and last.endswith("_imports")):
+            continue
+        n_fns += 1
+        di = DefIndex(f)
+        dom = None
+        for b, t in f.calls():
+            c = callee(t) or ""
+            if not (c.split("::")[-1] in ("eq", "ne") or c.endswith("str>::eq")):
+                continue
+            lits = [s for s in (str_of(f, di, a) for a in t[5]) if s is not None]
+            hit = [s for s in lits if s in names]
+            if not hit or t[7] is None or t[6] is None:
+                continue
+            name = hit[0]
+            nb = t[7]
+            tt = f.term(nb)
+            if tt[KIND] != "switch" or tt[4][0] not in ("cp", "mv") or tt[4][1][0] != t[6][0]:
+                continue
+            listed = {int(v): tb for v, tb in tt[6]}
+            true_t = tt[7] if 0 in listed else listed.get(1)
+            if true_t is None:
+                continue
+            if dom is None:
+                dom = dominators(f)
+            region = [x for x in range(f.nblocks()) if true_t in dom.get(x, ()) and not f.is_cleanup(x)]
+            ops = sorted(v for v in _w_variants_in(facts, f, region) if v.startswith(W_NUMERIC_PREFIX) and not any(k in v for k in W_NEUTRAL))
+            key = "inline|%s|%s" % (last, name)
+            vm = vm_methods.get(name)
+            if len(ops) == 1 and vm is not None and W_TWIN.get(ops[0]) == vm:
+                ck.ok(RI, key, {"builtin": name, "wasm": ops[0], "vm": vm})
+            else:
+                ck.bad(RI, key, "%s recognises the builtin `%s` by name and lowers it inline with %s, while the VM computes it with %s: these are not the same function for every f64 (NaN operands / ties), so the back ends can print different samples" % (f.short, name, ops or "its own code", vm or "its machine_function"), f.where(t))
+    ck.floor(RI, "wasm_generator_functions_scanned", n_fns, 40)
